@@ -10,7 +10,7 @@ for d in sorted(glob.glob(SRC + "/out-C*/m*")):
     if not os.path.isdir(d) or not os.path.exists(d + "/eval.txt") or not os.path.exists(d + "/patch.diff"):
         continue
     ev = open(d + "/eval.txt").read()
-    mm = re.search(r"out-(C\d+)([bc]?)/", d)
+    mm = re.search(r"out-(C\d+)([bcd]?)/", d)
     pid = mm.group(1)
     name = (mm.group(2) + "-" if mm.group(2) else "") + os.path.basename(d)      # later waves: <ID>-b-m<i>, <ID>-c-m<i>
     confirmed = ("demo_unchanged: pass" in ev and "demo_changed: fail" in ev and re.search(r"suite_changed: passed \d+ failed 0", ev))
